@@ -1,13 +1,13 @@
 SPECIFICATION Spec
 CONSTANTS
- NK = 3
+ NK = 2
  MaxFaults = 2
  MaxLead = 1
  MaxAttempts = 2
  MaxRetries = 2
- MaxPasses = 0
- CheckTs = {25, 40}
- Concurrent = FALSE
+ MaxPasses = 2
+ CheckTs = {15, 25, 40}
+ Concurrent = TRUE
  Dev = {}
  Orders = "all"
  PlanMax = 0
